@@ -3,6 +3,7 @@
 HARNESSES = {
     'mc_hash': dict(src=['mc_hash.c'], flavour='asan'),
     'mc_logmath': dict(src=['mc_logmath.c'], flavour='asan'),
+    'mc_modelfault': dict(src=['mc_modelfault.c'], flavour='asan', ldflags=['-Wl,--wrap=s3file_map_file']),
     'mc_parse': dict(src=['mc_parse.c'], flavour='asan'),
     'mc_chunk': dict(src=['mc_chunk.c'], flavour='asan', ldflags=['-Wl,--wrap=acmod_score']),
     'mc_session': dict(src=['mc_session.c'], flavour='asan'),
@@ -281,6 +282,25 @@ def _c10_runs(tier):
     return r
 
 
+MF_ENV = {'ASAN_OPTIONS': 'detect_leaks=0:allocator_may_return_null=1:max_allocation_size_mb=256:abort_on_error=0:exitcode=97'}
+
+
+def _c17_runs(tier):
+    r = []
+    stride = '65536' if tier == 'quick' else '2048'
+    dense = '512' if tier == 'quick' else '4096'
+    files = ['transition_matrices', 'means', 'variances', 'sendump', 'mdef', 'featparams', 'lda']
+    nsh = 2 if tier == 'quick' else 8
+    models = (('en-us', '1'), ('fr-fr', '0')) + ((('en-us', '0'), ('fr-fr', '1')) if tier == 'thorough' else ())
+    for model, mmap in models:
+        for f in files:
+            n = 1 if f in ('featparams',) else nsh
+            for i in range(n):
+                r.append(dict(h='mc_modelfault', label='modelfault-%s-%s-mmap%s-shard%d' % (model, f, mmap, i), env=MF_ENV,
+                              args=['--model', model, '--file', f, '--mmap', mmap, '--stride', stride, '--dense', dense, '--shard', '%d/%d' % (i, n)]))
+    return r
+
+
 SES_ASSUME = ['operation alphabet of 42 public-API calls (see harness/mc_session.c); audio = excerpts of tests/data/goforward.raw, zeros, and no samples; '
               'REAL front end and REAL acoustic scorer (no injected scores)',
               'grammar loading, dictionary additions and reinit are only issued between utterances (the documented protocol); every other call is issued in every state',
@@ -405,6 +425,24 @@ CHECKS = {
              'Oracle: process outcome (sanitizer, assertion, exit, 20 s hang), the returned object is used and freed, allocator back to its level',
         assumptions=['non-trivial = the library returned an object rather than a failure value',
                      'for JSGF inputs compiling to more than 300 states only the raw FSG is built (the null-transition closure is cubic)'] + TRUST,
+    ),
+    'C17': dict(
+        title='damaged acoustic-model files are rejected without memory errors',
+        level='fault_enumeration',
+        runs={'quick': _c17_runs('quick'), 'thorough': _c17_runs('thorough')},
+        budget_s={'quick': 900, 'thorough': 7200},
+        coverage=ex_cov,
+        rule='fault enumeration on decoder_init end to end, per model (en-us, fr-fr) and per file (mdef, means, variances, sendump, '
+             'transition_matrices, feat_params.json, a feature_transform): the file missing; EVERY truncation length in the header and the '
+             'first 512 B (quick) / 4 KiB (thorough) of payload, on a stride through the bulk (65536 quick / 2048 thorough) and the last 16 lengths; every 32-bit word of '
+             'the first 256 payload bytes set to {0,1,v-1,v+1,2v,0x7fffffff,0xffffffff,byteswap(v)}; single-bit flips in the header text, '
+             'byte-order magic and trailing checksum (every byte of feat_params.json); mmap on/off. The library sees exact-size heap copies '
+             '(s3file_map_file interposed). Oracle: outcome (sanitizer, assertion, exit, hang), a damaged file that is accepted must not '
+             'change the probe result, afterwards the intact model loads and decodes the probe to the known digest, allocator back to its '
+             'level. non-trivial = the fault was rejected through the return value',
+        assumptions=['allocation requests above 256 MiB fail deterministically (ASan max_allocation_size_mb), as on a small machine',
+                     'the feature_transform of tests/data does not fit the bundled models: it is only probed for safe rejection',
+                     'mixture_weights files (models without a senone dump) are not bundled and not explored'] + TRUST,
     ),
     'C11': dict(
         title='the word lattice is a well-formed, time-consistent graph of grammar paths',
@@ -556,6 +594,12 @@ CHECKS = {
 PENDING_REASON = {}
 
 MANIFEST_TEXT = {
+    'C17': dict(
+        text='Exhaustive fault enumeration over the stated fault model (all header/early truncations, all count-word corruptions, strided '
+             'bulk truncations, missing file) executed on decoder_init with exact-size buffers under ASan/UBSan, followed each time by an '
+             'intact load and a probe decode compared with the known digest.',
+        design_ref='DESIGN.md section 2, H11', technique='exhaustive fault enumeration at the file-mapping seam, sanitizer and differential-probe oracle',
+        note='bulk data truncations are strided; faults are single (one file, one damage) per run'),
     'C10': dict(
         text='Bounded exhaustive enumeration of inputs per entry point: all token sequences up to a length over sharp per-format alphabets and '
              'ALL single mutations (truncation, byte replacement, token deletion, line duplication) of valid seeds, executed under ASan/UBSan '
